@@ -190,7 +190,16 @@ class Continuous(AgentSchedulingComponent):
         # find at most `n_slots`
         loop_core_idx = 0
         loop_gpu_idx  = 0
+
+        # node-local storage and memory still available on this node
+        lfs_avail = node['lfs']
+        mem_avail = node['mem']
+
         while len(slots) < n_slots:
+
+            # lfs and mem are finite, too
+            if lfs_per_slot > lfs_avail or mem_per_slot > mem_avail:
+                break
 
             node_idx  = node['index']
             node_name = node['name']
@@ -266,6 +275,8 @@ class Continuous(AgentSchedulingComponent):
             self._log.debug_9('found resources on %s: %s', node_name, slot)
 
             slots.append(slot)
+            lfs_avail -= lfs_per_slot
+            mem_avail -= mem_per_slot
 
         self._log.debug_9('found resources on %s', node_name)
         self._log.debug_9(pprint.pformat(slots))
